@@ -13,7 +13,7 @@ for m in rows:
         s = s[:197] + "..."
     caught = [f"**{c}**" if c == m["breaks_property"] else c for c in m["caught_by"]]
     inc = (" (inconclusive: " + ", ".join(m["inconclusive"]) + ")") if m.get("inconclusive") else ""
-    note = (" - " + m["note"]) if m.get("note") else ""
+    note = (" **[" + m["note"] + "]**") if m.get("note") else ""
     print(f"| `{m['id']}` | {s}{note} | {', '.join(caught) or '-'}{inc} | {', '.join(m['not_caught_by']) or '-'} |")
     if m["breaks_property"] in m["caught_by"]:
         own += 1
